@@ -290,7 +290,7 @@ Proof.
     - intros He. destruct (H8 He) as [A ->]. repeat split; [assumption | unfold running; rewrite H3; reflexivity | unfold is_tcp; rewrite H4, Etr; reflexivity].
     - intros He (A & B & C). congruence. }
   destruct p; [|congruence|].
-  - destruct (negb (r_udp_write_ok r)).
+  - destruct (existsb _ (s_medias ss)).
     + (* the medias could not be started: nothing but the writer flag changes *)
       do 4 eexists. split; [reflexivity|].
       constructor; [|reflexivity|reflexivity|reflexivity|reflexivity|reflexivity|discriminate|discriminate].
